@@ -202,6 +202,10 @@ def _work_one(i, o):
                         from .tr import toV
                         wit[name] = py_of_model(m, toV(t), fx.entry.heap)
         backend = "z3-%s" % z3.get_version_string()
+        if verdict != "unsat" and os.environ.get("PYVC_DUMP"):
+            nm = re.sub(r"[^A-Za-z0-9_.@#-]", "_", getattr(_OBLS[i], "name", "obl%d" % i))
+            with open(os.path.join(os.environ["PYVC_DUMP"], nm + ("" if o is _OBLS[i] else ".part%d" % id(o)) + ".smt2"), "w") as f:
+                f.write(s.to_smt2())
         if verdict == "unknown" and _CFG.get("cvc5", True) and not getattr(o, "pure", False):
             v2 = _cvc5(s, _CFG["cvc5_ms"])
             if v2 in ("unsat", "sat"):
